@@ -302,6 +302,11 @@ def key_quotable(key):
     return triple_ok
 
 
+def first_line_fills(key):
+    """several lines, the first of exactly LINE - 3 units: the opening triple delimiter + first line fill a line"""
+    return 10 in key and list(key).index(10) + 3 == LINE
+
+
 # ---------------------------------------------------------------------------------------------------------------------
 # the oracle (shared): `ver`, request tokens describing the CIF, parsed observation
 
@@ -363,6 +368,13 @@ def known_class(ver, req_tokens, d):
     single line exceeds the line limit can only be written as a text field and comes back as a quoted string.  (The classes of the five writer defects repaired by 0543b02, 634c0d5, 098a48f, bf64cbf,
     40af3df are gone: a recurrence is a violation.)"""
     if d is None or d.get("b") != 0:
+        return None
+    if d.get("rc") == CIF_DISALLOWED_VALUE and ver != 1:
+        # open finding F-key-first-line: every key is writable, and one of them has several lines, the first of exactly
+        # LINE - 3 units (cif_analyze_string asks `first_line < length_limit - 3`)
+        _, _, keys, _ = request_strings(req_tokens)
+        if keys and all(key_quotable(k) for k in keys) and any(first_line_fills(k) for k in keys):
+            return "multiline-key-first-line-fills-line-refused"
         return None
     if d.get("rc") != 0:
         return None
